@@ -64,9 +64,15 @@ type c24WorldCfg struct {
 	TopicExists bool `json:"topic_exists"`
 	GroupExists bool `json:"group_exists"`
 	ViaConn     bool `json:"identity_via_conn_context"` // true: ConnContext.Principal=alice and ClientID=root (decoy); false: ClientID=alice
+	// WildFetch: alice additionally has allow fetch on topic "*" and an explicit deny of
+	// fetch on topic u (a wildcard grant with one exception)
+	WildFetch bool `json:"wildcard_fetch_except_u"`
 }
 
 func (w c24WorldCfg) has(atom string) bool {
+	if w.WildFetch && atom == "fetch:t" {
+		return true
+	}
 	for i, a := range c24Atoms {
 		if a == atom {
 			return w.Perms>>uint(i)&1 == 1
@@ -85,6 +91,9 @@ func (w c24WorldCfg) String() string {
 	id := "client.id=alice"
 	if w.ViaConn {
 		id = "conn-principal=alice,client.id=root"
+	}
+	if w.WildFetch {
+		ps = append(ps, "fetch:*-except-u")
 	}
 	return fmt.Sprintf("perms={%s} auto_create=%v topic_t_exists=%v group_g_exists=%v %s", strings.Join(ps, ","), w.AutoCreate, w.TopicExists, w.GroupExists, id)
 }
@@ -108,8 +117,13 @@ func (w c24WorldCfg) aclConfig() acl.Config {
 			rules = append(rules, acl.Rule{Action: acl.ActionAdmin, Resource: acl.ResourceCluster, Name: "*"})
 		}
 	}
+	var deny []acl.Rule
+	if w.WildFetch {
+		rules = append(rules, acl.Rule{Action: acl.ActionFetch, Resource: acl.ResourceTopic, Name: "*"})
+		deny = append(deny, acl.Rule{Action: acl.ActionFetch, Resource: acl.ResourceTopic, Name: c24U})
+	}
 	return acl.Config{Enabled: true, DefaultPolicy: "deny", Principals: []acl.PrincipalRules{
-		{Name: c24Alice, Allow: rules},
+		{Name: c24Alice, Allow: rules, Deny: deny},
 		{Name: c24Root, Allow: []acl.Rule{{Action: acl.ActionAny, Resource: acl.ResourceAny, Name: "*"}}},
 	}}
 }
@@ -208,6 +222,40 @@ func c24FetchReq(topics ...string) kmsg.Request {
 	return req
 }
 
+// c24FetchByIDReq fetches (v13 style) by topic id with an empty topic name.
+func c24FetchByIDReq(w *c24World, topics ...string) kmsg.Request {
+	req := c24FetchReq(topics...).(*kmsg.FetchRequest)
+	for i := range req.Topics {
+		req.Topics[i].TopicID = w.topicID(req.Topics[i].Topic)
+		req.Topics[i].Topic = ""
+	}
+	return req
+}
+
+func (w *c24World) topicID(name string) [16]byte {
+	m, err := w.store.Metadata(context.Background(), nil)
+	if err == nil {
+		for _, t := range m.Topics {
+			if t.Topic != nil && *t.Topic == name {
+				return t.TopicID
+			}
+		}
+	}
+	return [16]byte{0xEE}
+}
+
+func (w *c24World) topicName(id [16]byte) string {
+	m, err := w.store.Metadata(context.Background(), nil)
+	if err == nil {
+		for _, t := range m.Topics {
+			if t.TopicID == id && t.Topic != nil {
+				return *t.Topic
+			}
+		}
+	}
+	return ""
+}
+
 func c24ListOffsetsReq(ts int64, topics ...string) kmsg.Request {
 	req := kmsg.NewPtrListOffsetsRequest()
 	req.ReplicaID = -1
@@ -248,6 +296,8 @@ func c24MetadataNeeds(topics ...string) func(*c24World) []c24Need {
 		for _, tn := range topics {
 			atom := ""
 			switch {
+			case w.cfg.WildFetch && tn != c24U:
+				atom = "fetch:t" // the wildcard fetch grant covers every topic but u
 			case w.cfg.has("admin"):
 				atom = "admin"
 			case tn == c24T && w.cfg.has("produce:t"):
@@ -272,6 +322,7 @@ func c24Requests() []c24ReqSpec {
 		{"Produce[t,u]acks=-1", 7, func(w *c24World) kmsg.Request { return c24ProduceReq(-1, w.tag(), c24T, c24U) }, c24TopicNeeds(c24ProduceAtom, c24T, c24U)},
 		{"Fetch[t]", 11, func(*c24World) kmsg.Request { return c24FetchReq(c24T) }, c24TopicNeeds(c24FetchAtom, c24T)},
 		{"Fetch[t,u]", 11, func(*c24World) kmsg.Request { return c24FetchReq(c24T, c24U) }, c24TopicNeeds(c24FetchAtom, c24T, c24U)},
+		{"FetchByID[u]", 13, func(w *c24World) kmsg.Request { return c24FetchByIDReq(w, c24U) }, c24TopicNeeds(c24FetchAtom, c24U)},
 		{"FindCoordinator[g]", 3, func(*c24World) kmsg.Request {
 			r := kmsg.NewPtrFindCoordinatorRequest()
 			r.CoordinatorKey = c24G
@@ -667,8 +718,12 @@ func (w *c24World) entries(req kmsg.Request, resp kmsg.Response) []c24Entry {
 		}
 	case *kmsg.FetchResponse:
 		for _, t := range r.Topics {
+			name := t.Topic
+			if name == "" {
+				name = w.topicName(t.TopicID) // v13 replies carry the id only
+			}
 			for _, p := range t.Partitions {
-				out = append(out, c24Entry{"topic", t.Topic, p.ErrorCode, len(p.RecordBatches)})
+				out = append(out, c24Entry{"topic", name, p.ErrorCode, len(p.RecordBatches)})
 			}
 		}
 	case *kmsg.ListOffsetsResponse:
@@ -993,6 +1048,14 @@ func c24Worlds() []c24WorldCfg {
 						out = append(out, c24WorldCfg{Perms: m, AutoCreate: ac, TopicExists: te, GroupExists: ge, ViaConn: via})
 					}
 				}
+			}
+		}
+	}
+	// wildcard grant with an explicit exception
+	for _, via := range []bool{false, true} {
+		for _, te := range []bool{true, false} {
+			for _, ac := range []bool{true, false} {
+				out = append(out, c24WorldCfg{Perms: 0, AutoCreate: ac, TopicExists: te, GroupExists: true, ViaConn: via, WildFetch: true})
 			}
 		}
 	}
